@@ -22,8 +22,8 @@ CONSTANTS Slates,        \* slate names, e.g. {"s1","s2"}
           UseAdv,        \* adversarial foreign calls on w1
           MaxAdv         \* at most this many adversarial calls per behaviour
 
-VARIABLES st, hv, net, hist
-vars == <<st, hv, net, hist>>
+VARIABLES st, hv, net, hist, mids   \* mids: the intermediate persistent states of the last step
+vars == <<st, hv, net, hist, mids>>
 WS == {"w1", "w2"}
 
 \* ---------------------------------------------------------------- init
@@ -50,6 +50,7 @@ Init == /\ st = InitWorld
         /\ hv = EmptyHist(WS)
         /\ net = {}
         /\ hist = <<>>
+        /\ mids = <<>>
 
 \* ------------------------------------------------- selection (smallest first)
 \* simplified transcription of select_coins_and_fee for use_all = FALSE and
@@ -92,7 +93,11 @@ Log(e) == hist' = Append(hist, e)
 \* ------------------------------------------------------------------ actions
 \* every action: st' from the step operator, hv' maintained as in the trace spec,
 \* one record appended to hist (the replay driver understands exactly these)
-Upd(s2, hv2, net2, e) == /\ st' = s2 /\ hv' = HvIssued(hv2, s2) /\ net' = net2 /\ Log(e)
+Upd(s2, hv2, net2, e) == /\ st' = s2 /\ hv' = HvIssued(hv2, s2) /\ net' = net2 /\ Log(e) /\ mids' = <<>>
+\* the same for an operation with a step program: every state a crash could leave behind
+\* is kept in `mids` (hidden by the VIEW, judged by Inv_Crash)
+UpdS(steps, hv2, net2, e) == /\ st' = LastOr(steps, st) /\ hv' = HvIssued(hv2, LastOr(steps, st)) /\ net' = net2 /\ Log(e)
+                             /\ mids' = steps
 Msg(sl, stage, amt, ttl, rout, rep) == [sl |-> sl, stage |-> stage, amt |-> amt, ttl |-> ttl, rout |-> rout, rep |-> rep]
 ChgSeq(sel) == IF sel.chg = 0 THEN <<>> ELSE <<sel.chg>>
 
@@ -109,8 +114,8 @@ InitSendAct(sl, amt, late, ttlb, src) ==
                   minconf |-> 1, maxouts |-> 500, nchange |-> 1, useall |-> FALSE]
          e == [ev |-> "init_send", w |-> "w1", sl |-> sl, amt |-> amt, late |-> late, ttlb |-> ttlb, src |-> src]
      IN IF sel.ok
-        THEN Upd(LastOf(InitSend(st, "w1", args).steps), hv, net \cup {Msg(sl, "S1", amt, ttl, "", 0)}, e)
-        ELSE Upd(LastOf(InitSendErr(st, "w1", args, 0).steps), hv, net, e)
+        THEN UpdS(InitSend(st, "w1", args).steps, hv, net \cup {Msg(sl, "S1", amt, ttl, "", 0)}, e)
+        ELSE UpdS(InitSendErr(st, "w1", args, 0).steps, hv, net, e)
 
 LockAct(sl, m) ==
   /\ sl \in DOMAIN st.w["w1"].ctxs
@@ -118,8 +123,8 @@ LockAct(sl, m) ==
   /\ m \in net /\ m.sl = sl /\ m.stage \in {"S1", "S2", "I2"}
   /\ LET r == Lock(st, "w1", [sl |-> sl, stage |-> m.stage, ttl |-> m.ttl, hasproof |-> FALSE])
          s2 == LastOr(r.steps, st) IN
-     Upd(s2, IF r.res = "ok" THEN HvAfterLock(st, s2, hv, "w1", sl) ELSE hv, net,
-         [ev |-> "lock", w |-> "w1", sl |-> sl, stage |-> m.stage, rep |-> m.rep])
+     UpdS(r.steps, IF r.res = "ok" THEN HvAfterLock(st, s2, hv, "w1", sl) ELSE hv, net,
+          [ev |-> "lock", w |-> "w1", sl |-> sl, stage |-> m.stage, rep |-> m.rep])
 
 \* deliver the S1 message of slate sl to wallet w (w2 normally; w1 = self-send)
 ReceiveAct(w, sl) ==
@@ -128,8 +133,8 @@ ReceiveAct(w, sl) ==
          r == Receive(st, w, [sl |-> sl, dest |-> "", amt |-> m.amt, ttl |-> m.ttl, hasproof |-> FALSE, kernin |-> "part"])
          e == [ev |-> "receive", w |-> w, sl |-> sl] IN
      IF r.res = "ok"
-     THEN Upd(LastOf(r.steps), HvAfterReceive(st, LastOf(r.steps), hv, w, sl),
-              net \cup {Msg(sl, "S2", m.amt, m.ttl, OID(st, w, r.key), r.rep)}, e)
+     THEN UpdS(r.steps, HvAfterReceive(st, LastOf(r.steps), hv, w, sl),
+               net \cup {Msg(sl, "S2", m.amt, m.ttl, OID(st, w, r.key), r.rep)}, e)
      ELSE Upd(st, hv, net, e)
 
 FinalizeAct(sl, m) ==
@@ -142,15 +147,15 @@ FinalizeAct(sl, m) ==
                                   hasproof |-> FALSE, rout |-> {m.rout}, lsel |-> sel.sel, lchg |-> ChgSeq(sel)])
          s2 == LastOr(r.steps, st) IN
      /\ late => (sel.ok /\ sel.fee = cx.fee)
-     /\ Upd(s2, HvAfterFinalize(st, s2, hv, "w1", sl, r.res = "ok"), net,
-            [ev |-> "finalize", w |-> "w1", sl |-> sl, stage |-> "S2", rep |-> m.rep])
+     /\ UpdS(r.steps, HvAfterFinalize(st, s2, hv, "w1", sl, r.res = "ok"), net,
+             [ev |-> "finalize", w |-> "w1", sl |-> sl, stage |-> "S2", rep |-> m.rep])
 
 \* -- invoice flow: w2 issues (payee), w1 pays, w1 locks with the I2 slate, w2 finalizes
 IssueInvoiceAct(sl, amt) ==
   /\ sl \notin DOMAIN st.w["w2"].ctxs
   /\ ~\E m \in net : m.sl = sl
   /\ LET r == IssueInvoice(st, "w2", [sl |-> sl, dest |-> "", amt |-> amt]) IN
-     Upd(LastOf(r.steps), hv, net \cup {Msg(sl, "I1", amt, 0, OID(st, "w2", r.key), 0)},
+     UpdS(r.steps, hv, net \cup {Msg(sl, "I1", amt, 0, OID(st, "w2", r.key), 0)},
          [ev |-> "issue_invoice", w |-> "w2", sl |-> sl, amt |-> amt])
 ProcessInvoiceAct(sl) ==
   /\ \E m \in net : m.sl = sl /\ m.stage = "I1"
@@ -164,7 +169,7 @@ ProcessInvoiceAct(sl) ==
      IF pe # "ok" THEN Upd(st, hv, net, e)
      ELSE IF ~sel.ok THEN Upd(r1, hv, net, e)
      ELSE LET r == ProcessInvoice(st, "w1", args) IN
-          Upd(LastOf(r.steps), hv, net \cup {Msg(sl, "I2", m.amt, 0, m.rout, r.rep)}, e)
+          UpdS(r.steps, hv, net \cup {Msg(sl, "I2", m.amt, 0, m.rout, r.rep)}, e)
 FinalizeInvoiceAct(sl, m) ==
   /\ m \in net /\ m.sl = sl /\ m.stage = "I2"
   /\ sl \in DOMAIN st.w["w2"].ctxs
@@ -176,7 +181,7 @@ FinalizeInvoiceAct(sl, m) ==
                                   rins |-> {OID(st, "w1", k) : k \in cx1.ins}, rfee |-> cx1.fee,
                                   lsel |-> {}, lchg |-> <<>>])
          s2 == LastOr(r.steps, st) IN
-     Upd(s2, hv, net, [ev |-> "finalize", w |-> "w2", sl |-> sl, stage |-> "I2", rep |-> m.rep])
+     UpdS(r.steps, hv, net, [ev |-> "finalize", w |-> "w2", sl |-> sl, stage |-> "I2", rep |-> m.rep])
 
 PostAct(sl) ==
   /\ sl \in DOMAIN st.body /\ sl \notin st.pool /\ sl \notin Mined(st)
@@ -204,12 +209,12 @@ TickAct ==   \* an empty block, only while something can change by it (a pending
 RefreshAct(w) ==
   /\ LET r == RefreshFull(st, w) IN
      /\ LastOr(r.steps, st) # st
-     /\ Upd(LastOr(r.steps, st), hv, net, [ev |-> "refresh", w |-> w])
+     /\ UpdS(r.steps, hv, net, [ev |-> "refresh", w |-> w])
 
 \* cancel by log id (of the active account) or by slate id; refused cancels included
 CancelAct(w, id, sl) ==
   /\ LET r == Cancel(st, w, [id |-> id, sl |-> sl], TRUE) IN
-     Upd(LastOr(r.steps, st), hv, net, [ev |-> "cancel", w |-> w, id |-> id, by |-> sl])
+     UpdS(r.steps, hv, net, [ev |-> "cancel", w |-> w, id |-> id, by |-> sl])
 
 \* accounts on w1
 CreateAccountAct ==
@@ -280,6 +285,9 @@ View == <<st, hv, net>>
 \* full error trace per violation, which is far too slow when a defect is reachable often)
 Cex(name) == PrintT(<<"CEX", ToJson([inv |-> name, hist |-> hist])>>)
 Inv_Exclusive == IF ExclusiveReservation(st, hv) THEN TRUE ELSE Cex("ExclusiveReservation")
+\* C06: every state a crash can leave behind (after each persistent effect of the last
+\* operation) is consistent
+Inv_Crash == IF \A i \in DOMAIN mids : \A w \in WS : CrashConsistent(mids[i], w) THEN TRUE ELSE Cex("CrashConsistent")
 TypeOK == \A w \in WS : \A k \in DOMAIN st.w[w].outs : st.w[w].outs[k].st \in Statuses
 
 \* action properties: evaluated on every transition; the event is the last
